@@ -106,6 +106,75 @@ fn list_dir(dir: &PathBuf) -> Value {
     json!(out)
 }
 
+// ---- power-loss support (hooks build): the read-offset index is copied aside right before every rename event,
+// so that "this rename and everything after it never reached the disk" can be materialised later
+#[cfg(walrus_verif)]
+static CUR_OP: std::sync::atomic::AtomicUsize = std::sync::atomic::AtomicUsize::new(0);
+#[cfg(walrus_verif)]
+static SNAP_DIR: std::sync::OnceLock<(PathBuf, PathBuf)> = std::sync::OnceLock::new();
+#[cfg(walrus_verif)]
+fn observer(kind: &'static str, count: u64) {
+    if kind != "rename" { return; }
+    if let Some((data, snap)) = SNAP_DIR.get() {
+        let i = CUR_OP.load(std::sync::atomic::Ordering::Relaxed);
+        let idx = find_index(data);
+        let dst = snap.join(format!("idx.op{}.ev{}", i, count - 1));
+        match idx { Some(p) if p.exists() => { let _ = std::fs::copy(&p, &dst); } _ => { let _ = std::fs::write(snap.join(format!("idx.op{}.ev{}.absent", i, count - 1)), b""); } }
+    }
+}
+fn find_index(data: &PathBuf) -> Option<PathBuf> {
+    // the instance root is the data dir or one key sub-directory of it
+    let direct = data.join("read_offset_idx_index.db");
+    if direct.exists() { return Some(direct); }
+    if let Ok(rd) = std::fs::read_dir(data) {
+        for e in rd.flatten() { let p = e.path().join("read_offset_idx_index.db"); if p.exists() { return Some(p); } }
+    }
+    Some(direct)
+}
+fn wal_files(data: &PathBuf) -> Vec<PathBuf> {
+    let mut v: Vec<PathBuf> = Vec::new();
+    if let Ok(rd) = std::fs::read_dir(data) {
+        for e in rd.flatten() {
+            let p = e.path();
+            let n = p.file_name().unwrap().to_string_lossy().to_string();
+            if p.is_file() && n.chars().all(|c| c.is_ascii_digit()) { v.push(p); }
+        }
+    }
+    v.sort();
+    v
+}
+fn power_loss(data: &PathBuf, snap: &PathBuf, op: &Value) -> Value {
+    use std::os::unix::fs::FileExt;
+    let mut done = Vec::new();
+    let files = wal_files(data);
+    let mut deletes = Vec::new();
+    for d in op["directives"].as_array().cloned().unwrap_or_default() {
+        match d["t"].as_str().unwrap_or("") {
+            "zero_range" => {
+                let f = &files[d["file_ord"].as_u64().unwrap() as usize];
+                let (off, len) = (d["off"].as_u64().unwrap(), d["len"].as_u64().unwrap() as usize);
+                let fh = std::fs::OpenOptions::new().write(true).open(f).expect("wal file");
+                let zeros = vec![0u8; len.min(1 << 20)];
+                let mut w = 0usize;
+                while w < len { let n = (len - w).min(zeros.len()); fh.write_all_at(&zeros[..n], off + w as u64).expect("zero"); w += n; }
+                done.push(format!("zeroed {}+{} in file {}", off, len, d["file_ord"]));
+            }
+            "delete_file" => { deletes.push(files[d["file_ord"].as_u64().unwrap() as usize].clone()); }
+            "index_state" => {
+                let b = d["before"].as_array().unwrap();
+                let name = format!("idx.op{}.ev{}", b[0].as_u64().unwrap(), b[1].as_u64().unwrap());
+                let idx = find_index(data).unwrap();
+                if snap.join(&name).exists() { std::fs::copy(snap.join(&name), &idx).expect("restore index"); done.push(format!("index restored from {}", name)); }
+                else if snap.join(format!("{}.absent", name)).exists() { let _ = std::fs::remove_file(&idx); done.push("index removed".to_string()); }
+                else { return json!({"err": "NoSnapshot", "msg": name}); }
+            }
+            _ => {}
+        }
+    }
+    for f in deletes { let _ = std::fs::remove_file(&f); done.push(format!("deleted {}", f.display())); }
+    json!({"ok": true, "done": done})
+}
+
 fn main() {
     let args: Vec<String> = std::env::args().collect();
     let script: Value = serde_json::from_str(&std::fs::read_to_string(&args[1]).expect("script")).expect("json");
@@ -138,6 +207,13 @@ fn main() {
             table.by_topic.entry(tp).or_default().push(uid);
         }
     }
+    let snap = dir.parent().map(|p| p.join("snap")).unwrap_or_else(|| dir.join("../snap"));
+    let _ = std::fs::create_dir_all(&snap);
+    #[cfg(walrus_verif)]
+    {
+        let _ = SNAP_DIR.set((dir.clone(), snap.clone()));
+        if cfg["snapshots"].as_bool() == Some(true) { walrus_rust::wal::verif::set_observer(Some(observer)); }
+    }
     let mut insts: HashMap<String, Walrus> = HashMap::new();
     let mut i = from;
     while i < ops.len() {
@@ -146,7 +222,18 @@ fn main() {
         let iname = op["inst"].as_str().unwrap_or("w").to_string();
         let topic = op["topic"].as_str().unwrap_or("t").to_string();
         if kind == "restart_process" && i > from {
-            println!("{}", json!({"i": i, "op": kind, "stop": true}));
+            // clean shutdown: the instances are dropped here, with the I/O events of their Drop impls attributed to this op
+            #[cfg(walrus_verif)]
+            {
+                CUR_OP.store(i, std::sync::atomic::Ordering::Relaxed);
+                walrus_rust::wal::verif::arm(op["abort_at_event"].as_u64().unwrap_or(0));
+            }
+            insts.clear();
+            #[allow(unused_mut)]
+            let mut out = json!({"i": i, "op": kind, "stop": true});
+            #[cfg(walrus_verif)]
+            { out["events"] = json!(walrus_rust::wal::verif::disarm()); }
+            println!("{}", out);
             return;
         }
         #[cfg(walrus_verif)]
@@ -159,11 +246,14 @@ fn main() {
                 };
                 walrus_rust::wal::verif::set_fault(kind, f["nth"].as_u64().unwrap_or(1));
             }
+            CUR_OP.store(i, std::sync::atomic::Ordering::Relaxed);
             walrus_rust::wal::verif::arm(op["abort_at_event"].as_u64().unwrap_or(0));
         }
         let res = catch_unwind(AssertUnwindSafe(|| -> Value {
             match kind {
                 "restart_process" => json!({"ok": true}),
+                "power_loss" => power_loss(&dir, &snap, op),
+                "abort_now" => { std::process::abort(); }
                 "open" | "reopen" => {
                     insts.remove(&iname);
                     let d = if let Some(sub) = op["subdir"].as_str() { let p = dir.join(sub); let _ = std::fs::create_dir_all(&p); p } else { dir.clone() };
